@@ -1113,6 +1113,28 @@ def run(ctx):
                 cimpl.append("valid|ok")
     ctx.correspond("what Network.nsi_betweenness hands to the kernel (captured, contents included) "
                    "satisfies the contract of nsiBetwIdx_ok, and the model runs through", cmodel, cimpl)
+    # round 5e: the construction of those arguments, read off the source of the two methods by
+    # c20_py.nsi_betw_terms and executed by the driver on the adjacency the Network was built from,
+    # must reproduce every captured call exactly (and the adjacency is one the theorem
+    # nsi_betweenness_public_call_safe speaks of: square, 0/1, symmetric)
+    gmodel, gimpl = [], []
+    for q in npub:
+        o = ares[q["id"]]["outcome"]
+        if not (o.startswith("ok:") and o != "ok:-"):
+            continue
+        M = q["adj5e"]
+        sym = all(M[i][j] == M[j][i] and M[i][j] in (0, 1)
+                  for i in range(len(M)) for j in range(len(M)))
+        tgs = [q["args"][2], q["args"][4]]
+        for call, tg in zip(o[3:].split(";"), tgs):
+            gmodel.append("nsicsr " + ";".join(",".join(str(int(x)) for x in row) for row in M) + " " +
+                          ("none" if tg is None else (",".join(str(int(x)) for x in tg) or "-")))
+            gimpl.append(call + ("|adj-ok" if sym else "|adj-any") + "|valid")
+            ctx.count("nsi-public-construction:" + ("default-targets" if tg is None else "targets-given"))
+    ctx.correspond("CSR arguments constructed from the adjacency by the statements read off "
+                   "Network.nsi_betweenness / _nsi_betweenness (generated) == the captured arguments, "
+                   "exactly", gmodel, gimpl)
+    ctx.extra["nsi_constructions_tied"] = len(gmodel)
     ctx.extra["nsi_kernel_calls_captured"] = len(cmodel)
 
     # kernel calls observed under the public API: do they satisfy the contracts the theorems assume?
@@ -1308,7 +1330,8 @@ def nsi_requests(ctx, rng, nprng, quick):
         args = [int(directed), sub() if c % 2 else None, sub() if c % 3 == 1 else None,
                 int(c % 5 != 0), sub() if c % 4 == 2 else None]
         preqs.append({"id": f"q{c}", "fn": "nsi_public", "args": args, "arrays": arrs,
-                      "cls": "directed" if directed else "undirected", "timeout": 60})
+                      "cls": "directed" if directed else "undirected", "timeout": 60,
+                      "adj5e": M.tolist()})
         ctx.case(("nsi-public", N, M.tobytes().hex(), str(args)), True,
                  {"entry": "Network.nsi_betweenness", "N": N, "directed": directed} if c < 4 else None)
         ctx.count("nsi-public:" + ("directed" if directed else "undirected"))
